@@ -353,3 +353,41 @@ for _pid, _fn, _txt in (("C11", _c11, "bookkeeping invariants of one service aft
         "explanation": "bounded symbolic execution of the real Service source: " + _txt,
     }
 PROPS["C13"]["assumptions"].append("health time-out 15, instance time-out 30, clock on the grid %s; removal is two-phase (the tick that finds an instance unhealthy and overdue queues it, the next tick removes it)" % "[0,5,14,16,29,31,46,62]")
+
+
+def _c05(tier, seed):
+    from rs2smt import c05
+    return c05.run(tier, seed)
+
+
+# C05 is decided by engine S: the Kani file-level harnesses (harness/c05.rs k05_1_*) exceed 20 minutes each because RaftIndexDto
+# carries a HashMap (to_record_do iterates it, the conversions build and drop it); the same scenario functions remain the native
+# replay targets. k05_2_id_bin (all u64) stays on engine K and backs the id_to_bin / bin_to_id model.
+PROPS["C05"]["kani"] = [h for h in PROPS["C05"]["kani"] if h.name == "k05_2_id_bin"]
+PROPS["C05"]["smt"] = _c05
+PROPS["C05"]["trusted_base"] = ["rs2smt parser + evaluator; environment models of rs2smt/iomodel.py (quick_protobuf Writer/BytesReader primitives, in-memory tokio::fs, big-endian id codec)",
+                                "Kani/CBMC for k05_2_id_bin", "z3 5.1.0"]
+PROPS["C05"]["assumptions"] = [
+    "quick_protobuf's Writer / BytesReader primitives and tokio::fs::File are modelled (rs2smt/iomodel.py); the generated message code of /repo (log.rs), the DTO conversions, "
+    "FileMessageReader, read_varint64 and inner_sizeof_varint are evaluated from source",
+    "term < 2^21, vote and log-range start < 2^14, last-applied < 2^59 (each symbolic integer forks on its varint size class; 0x0800000000000000 is the legacy header placeholder)",
+    "one or two hard-state writes, at most one log range, node_addrs / member lists empty",
+]
+PROPS["C05"]["outside"] = "RaftIndexManager actor wrapper; membership / address maps with entries; crash points between the writes (C04)"
+
+
+def _c01(tier, seed):
+    from rs2smt import c01
+    return c01.run(tier, seed)
+
+
+# C01 is decided by engine S for the same reason as C05 (SnapshotHeaderDto carries a HashMap: the Kani harnesses of harness/c01.rs exceed
+# 20 minutes); those scenario functions remain the native replay targets.
+PROPS["C01"]["kani"] = []
+PROPS["C01"]["smt"] = _c01
+PROPS["C01"]["trusted_base"] = PROPS["C05"]["trusted_base"][:1] + ["z3 5.1.0"]
+PROPS["C01"]["assumptions"] = [
+    "quick_protobuf Writer / BytesReader primitives and tokio::fs::File are modelled (rs2smt/iomodel.py: open without truncate keeps the old content); SnapshotWriter, SnapshotReader, "
+    "the DTO conversions, the generated message code and MessageBufReader are evaluated from source",
+    "one tree name, 1-byte keys and values (symbolic), header fields in 1..=127, member / address lists empty; 0 or 2 (thorough: 0..=3) records left by an earlier build of the same id",
+]
